@@ -21,6 +21,7 @@ demo_file = meta.get("demo_file", "demo.rs")
 res = {"repo_head": sh("git -C /repo rev-parse --short HEAD")[1].strip(), "at": time.strftime("%Y-%m-%d %H:%M")}
 if demo_file.endswith(".sh"):
     demo = os.path.join(seed, demo_file)
+    env["CARGO_TARGET_DIR"] = os.path.join(WT, "target")   # shell demos look for binaries under <worktree>/target
     rc, out = sh(f"sh {demo} {WT}", cwd=WT)
     res["demo_on_clean"] = "pass" if rc == 0 else "FAIL"
     rc, out = sh(f"git apply {os.path.join(seed, 'patch.diff')}", cwd=WT)
